@@ -1,4 +1,5 @@
 import RxProofs.Lemmas.SubjThm
+import RxProofs.Lemmas.SubjNat
 import RxProofs.Lemmas.SubjOrder
 /-!
 # C20 — a Subject broadcasts to exactly the observers subscribed at the time
@@ -134,6 +135,17 @@ theorem after_dispose_raises {cfg : Cfg} {v : Option α} {st : St α} {rest : Li
       (who = none → r1.1.raisedNow = some disposedExn) ∧ (∀ i, who = some i → r1.1.xlog = st.xlog ++ [(i, disposedExn)]) ∧
       ∀ st' ag', Reach cfg r1.1 (nextAgenda r1 rest) st' ag' → st'.log j = []) :=
   after_dispose hd
+
+/-- **subject_natural** (C08 for this subject: no value is special).  Renaming every value of a history (and the
+initial value) with an arbitrary function `g` renames the notifications every observer sees and changes nothing
+else: same exceptions per call, same exceptions caught by reacting callbacks, same observers.  Subject. -/
+theorem subject_natural {β : Type} (cfg : Cfg) (g : α → β) (fuel : Nat) (v : Option α) (calls : List (Call α)) (i : Id) :
+    (run cfg fuel (init cfg (v.map g)) (calls.map (Call.map g))).1.log i =
+      ((run cfg fuel (init cfg v) calls).1.log i).map (Notif.map g) ∧
+    (run cfg fuel (init cfg (v.map g)) (calls.map (Call.map g))).2 = (run cfg fuel (init cfg v) calls).2 ∧
+    (run cfg fuel (init cfg (v.map g)) (calls.map (Call.map g))).1.xlog = (run cfg fuel (init cfg v) calls).1.xlog ∧
+    (run cfg fuel (init cfg (v.map g)) (calls.map (Call.map g))).1.observers = (run cfg fuel (init cfg v) calls).1.observers :=
+  run_natural_log cfg g fuel v calls i
 
 /-- What the correspondence check executes (`Subj.run`, any fuel, any history) stays inside the
 reachable configurations all theorems above quantify over. -/
